@@ -36,38 +36,40 @@ def _run(pid, repo):
         return "analysis-error", [str(e)[:120]]
 
 
-def selftest(pid, repo):
-    out = {"breaking": [], "neutral": [], "fired": 0, "missed": 0, "silent_ok": 0, "false_alarms": 0, "not_applicable": 0}
+def _one(args):
+    pid, repo, kind, name, patch = args
     base = tempfile.mkdtemp(prefix="vself.")
     try:
-        for meta_path in sorted(glob.glob(os.path.join(VERIF, "seeded", "*", "meta.json"))):
-            meta = json.load(open(meta_path))
-            if pid not in meta.get("caught_by", []):
-                continue
-            d = os.path.dirname(meta_path)
-            dest = os.path.join(base, os.path.basename(d))
-            os.makedirs(dest)
-            if not _apply(repo, os.path.join(d, "patch.diff"), dest):
-                out["not_applicable"] += 1
-                out["breaking"].append({"seed": os.path.basename(d), "result": "patch does not apply to the current tree"})
-                shutil.rmtree(dest, ignore_errors=True)
-                continue
-            res, detail = _run(pid, dest)
-            out["breaking"].append({"seed": os.path.basename(d), "result": res, "detail": detail})
-            out["fired" if res == "violation" else "missed"] += 1
-            shutil.rmtree(dest, ignore_errors=True)
-        for patch in sorted(glob.glob(os.path.join(VERIF, "selftest", "neutral", "*.diff"))):
-            name = os.path.basename(patch)[:-5]
-            dest = os.path.join(base, "n_" + name)
-            os.makedirs(dest)
-            if not _apply(repo, patch, dest):
-                out["not_applicable"] += 1
-                shutil.rmtree(dest, ignore_errors=True)
-                continue
-            res, detail = _run(pid, dest)
-            out["neutral"].append({"variant": name, "result": res, "detail": detail})
-            out["silent_ok" if res == "silent" else "false_alarms"] += 1
-            shutil.rmtree(dest, ignore_errors=True)
+        if not _apply(repo, patch, base):
+            return kind, name, "n/a", ["patch does not apply to the current tree"]
+        res, detail = _run(pid, base)
+        return kind, name, res, detail
     finally:
         shutil.rmtree(base, ignore_errors=True)
+
+
+def selftest(pid, repo):
+    from concurrent.futures import ProcessPoolExecutor
+
+    out = {"breaking": [], "neutral": [], "fired": 0, "missed": 0, "silent_ok": 0, "false_alarms": 0, "not_applicable": 0}
+    jobs = []
+    for meta_path in sorted(glob.glob(os.path.join(VERIF, "seeded", "*", "meta.json"))):
+        meta = json.load(open(meta_path))
+        if pid in meta.get("caught_by", []):
+            d = os.path.dirname(meta_path)
+            jobs.append((pid, repo, "breaking", os.path.basename(d), os.path.join(d, "patch.diff")))
+    for patch in sorted(glob.glob(os.path.join(VERIF, "selftest", "neutral", "*.diff"))):
+        jobs.append((pid, repo, "neutral", os.path.basename(patch)[:-5], patch))
+    with ProcessPoolExecutor(max_workers=min(12, os.cpu_count() or 4)) as ex:
+        for kind, name, res, detail in ex.map(_one, jobs):
+            if res == "n/a":
+                out["not_applicable"] += 1
+                continue
+            if kind == "breaking":
+                out["breaking"].append({"seed": name, "result": res, "detail": detail})
+                out["fired" if res == "violation" else "missed"] += 1
+            else:
+                if res != "silent":
+                    out["neutral"].append({"variant": name, "result": res, "detail": detail})
+                out["silent_ok" if res == "silent" else "false_alarms"] += 1
     return out
